@@ -258,7 +258,7 @@ fn one_run(case: &Case, with_foreign: bool, sc: &Scratch, tag: &str) -> Result<(
         if let Event::RunStart { run, snap } = &ev {
             if *run >= 1 && with_foreign && case.gz_twin_dirs {
                 for e in snap.iter() {
-                    if e.kind == EKind::File && classify(cfg, &e.name).is_some() {
+                    if e.kind == EKind::File && classify(cfg, &e.name).is_some_and(|p| p.gz) {
                         if let Some(plain) = e.name.strip_suffix(".gz") {
                             let p = dir.join(plain);
                             if !p.exists() && std::fs::create_dir(&p).is_ok() {
